@@ -440,6 +440,14 @@ def opInoculate (toks : List String) : String :=
     "ok " ++ toString ts.length ++ String.join (ts.map fun t => " " ++ termStr t.s ++ " " ++ termStr t.p ++ " " ++ termStr t.o)
   | none => "bad-graph"
 
+/-- `exit report <0|1>` | `exit failure` | `exit raised <class>` → the exit status of the command line -/
+def opExit (toks : List String) : String :=
+  match toks with
+  | ["report", b] => "ok " ++ toString (Cli.exitStatus (.report (b = "1")))
+  | ["failure"] => "ok " ++ toString (Cli.exitStatus .failure)
+  | ["raised", c] => "ok " ++ toString (Cli.exitStatus (.raised c))
+  | _ => "bad-args"
+
 def step (line : String) : String :=
   match (line.trimAscii.toString.splitOn " ").filter (· ≠ "") with
   | id :: op :: rest =>
@@ -451,6 +459,7 @@ def step (line : String) : String :=
       | "printpath" => opPrintPath rest
       | "inoculate" => opInoculate rest
       | "rules" => opRules rest
+      | "exit" => opExit rest
       | _ => "bad-op"
     id ++ " " ++ out
   | _ => "? bad-line"
